@@ -321,7 +321,11 @@ func c15Run(j vs.Job) *vs.JobResult {
 		src := fresh()
 		must(os.MkdirAll(filepath.Join(src, "r"), 0o755))
 		for i := 0; i < 300; i++ {
-			must(os.WriteFile(filepath.Join(src, "r", fmt.Sprintf("f%03d", i)), []byte(fmt.Sprintf("entry %d", i)), 0o644))
+			content := []byte(fmt.Sprintf("entry %d", i))
+			if i%3 == 0 {
+				content = nil // empty files never reach the payload branch of the writer
+			}
+			must(os.WriteFile(filepath.Join(src, "r", fmt.Sprintf("f%03d", i)), content, 0o644))
 		}
 		baseFds := countFds()
 		files, _ := checkPathsReadable([]string{filepath.Join(src, "r")}, true)
@@ -509,7 +513,7 @@ func init() {
 		ID:    "C15",
 		Level: "exploration",
 		Rule: "every tree shape with <= 4 entries over {directory, empty file, 1-byte file, 3-byte file} and depth <= 2 x producer read sizes {1,2,3,7,64,32768} x consumer segmentation {whole, every single cut, uniform sizes 1..8}; every pair of cuts on three core trees; a tree with files of several read buffers, unicode names and empty directories cut at and around every header/payload boundary; " +
-			"a 300-entry tree with descriptor counts taken after every read / write (GC off); each of three files shrinking, emptied or growing between scan and read and after every k-th read of the producer (every moment of the stream) x read sizes {7,64,32768} (thorough: also 1)",
+			"a 300-entry tree (every third file empty) with descriptor counts taken after every read / write (GC off); each of three files shrinking, emptied or growing between scan and read and after every k-th read of the producer (every moment of the stream) x read sizes {7,64,32768} (thorough: also 1)",
 		Assumptions: []string{"real file system in a scratch directory on tmpfs", "descriptor use is counted in /proc/self/fd with the garbage collector disabled so that finalizers cannot hide a leak"},
 		QuickBudget: 100, ThoroughBudget: 600, DiedIsViolation: true,
 		Jobs: func(tier string) []vs.Job {
